@@ -1,6 +1,7 @@
 """C49 — configuration values resolve by location and round-trip through files
 (breezy/config.py: _iter_for_location_by_parts, LocationMatcher,
-StartingPathMatcher, LocationSection.get, Stack.get/set, IniFileStore).
+StartingPathMatcher, LocationSection.get, Stack.get/set, IniFileStore, and the
+configobj quoting / parsing layer underneath).
 
 T2 (location resolution): generated stores (optional no-name section, 1..6
 named sections whose ids are paths over a small component alphabet with `*`,
@@ -17,33 +18,60 @@ model, and for several locations the model is compared with the real
 Section ids outside the modelled glob grammar / values with non-local option
 references: the model says so ('G' / 'R') and only the oracle runs.
 
+T2 (store round trip; the quoting layer is MODELLED, not abstract):
+  * IniFileStore.quote (what Stack.set stores) and ConfigObj._quote with
+    list_values on / off (what ConfigObj.write applies to the stored string),
+    incl. breezy's _get_triple_quote override — on raw and on quoted values
+  * the reader: generated ini texts (hostile value texts, single- and multi-line
+    triple-quoted values, inline comments, blank/comment lines, plain section
+    markers, duplicates, every str.splitlines boundary, indentation, Unicode
+    blanks around `=`) loaded by the real IniFileStore against the model's
+    splitLines / classifyLine / parseOptValue / parseLines (model answers
+    'O' = outside the fragment for quoted keys, nested markers, ...)
+  * ConfigObj._handle_value / _multiline called directly
+  * the blank table (str.isspace = re's \\s = str.strip) and the line-boundary
+    table (str.splitlines) on every code point
+  * the WHOLE round trip, two generations: Stack.set of several options on a
+    real TransportIniFileStore -> save -> fresh store -> Stack.get of every
+    option; then Stack.set on the LOADED store -> save -> fresh store -> get.
+    The outcome (values, set/save error, load error) is compared with the
+    model's, for every generated case, including the damaged ones.
+
 Oracle, independent of the model (documented semantics written here with
 Python's own fnmatch and dromedary's join/basename as specifications):
 component-wise glob prefix match, most specific first (more components, then
 id), a section with ignore_parents=true is the last one consulted, appendpath
-joins the unmatched part of the location, {relpath}/{basename} expand to it.
-Round trip: Stack.set(value) -> save -> fresh store -> Stack.get == value for
-values over a grammar with quotes, commas, '#', '=', '[', ';', backslashes,
-leading/trailing blanks, newlines and unicode; other options of the file keep
-their values; also through the real LocationStack/LocationStore
-(set at a location, re-load, get at the location and below it).
+joins the unmatched part of the location, {relpath}/{basename} expand to it
+(skipped only when the value FOUND still holds a stack-level reference).
+Round trip: every option reads back as it was set, in both generations, for
+values over a grammar with quotes, triple quotes, commas, '#', '=', '[', ';',
+backslashes, leading/trailing blanks (ASCII and Unicode), all line boundaries
+and non-ASCII text; also through the real LocationStack/LocationStore (set at
+a location, re-load, get at the location and below it).
 
-FINDINGS on the unchanged code (each has its own family classifier):
-  ignore-parents-own-section-dropped  LocationMatcher.get_sections breaks BEFORE
-      yielding the section that says ignore_parents=true, so that section's own
-      options are lost too (the old LocationConfig yields it, then stops)
-  roundtrip-line-break   a value containing a line break is read back wrapped in
-      two extra quote characters (quoted by Stack.set, quoted again by
-      ConfigObj.write, un-quoted once)
-  roundtrip-both-quote-kinds  a value with both ' and " that also has '#' or
-      starts and ends with the same quote character loses/gains quotes
+FINDINGS on the unchanged code (each has its own family classifier; a family is
+accepted only if the value is in the input family AND the damage observed is
+exactly the one the Lean model derives — anything else is reported as new;
+collateral damage to other options is attributed by re-running the real round
+trip without the family values):
+  roundtrip-line-break   a value containing a line boundary is read back wrapped in
+      two extra quote characters (triple-quoted by Stack.set, quoted again by
+      ConfigObj.write, un-quoted once) or the file does not load       [known, F18]
+  roundtrip-both-quote-kinds  a value with both ' and " loses/gains quotes, at the
+      first read-back or when the loaded file is saved again           [known, F19]
+  roundtrip-unicode-blank-at-end  NEW: a value whose first/last character is a
+      Unicode blank other than space/tab (U+00A0, U+3000, U+001F, U+2000.., ...)
+      and that configobj writes without quotes loses that character (the parser's
+      \\s* strips it).  Repro + tested patch: /var/tmp/imp-C49C50/.
+  (ignore-parents-own-section-dropped was fixed in /repo by 5b060e5; the classifier
+  stays so that a regression is named.)
 
-The ignore_parents cut exists in two modelled shapes ('excl' = the code as
-found, 'incl' = documented / the proposed patch); the harness probes the live
-LocationMatcher once and asks the model for the matching one.
+Model variants selected by probing the live code once: the ignore_parents cut
+('incl' = the code as it is, 'excl' = the loop before 5b060e5) and
+IniFileStore.quote ('s' = as it is, 'sfix' = with the patch proposed for
+roundtrip-unicode-blank-at-end; store_roundtrip_partial is proved for both).
 
-Mutants this was built against (scratch worktree; each caught by the oracle
-with a concrete input):
+Mutants this was built against (scratch worktree; each caught with a concrete input):
   M1  _iter_for_location_by_parts: `len(section_parts) > len(location_parts)` -> `>=`
   M2  extra_path from `location_parts[len(section_parts) - 1:]`
   M3  LocationMatcher.get_sections sort key `(match[0], id)` -> `(id,)` (alphabetical, not by depth)
@@ -55,11 +83,18 @@ with a concrete input):
   M9  IniFileStore.unquote never unquotes
   M10 fnmatch(name[0], name[1]) arguments swapped
   M11 ignore_parents: `if ignore: break` -> `if ignore is not None: break`
+  M11b the loop before 5b060e5 (break before yield)
   M12 StartingPathMatcher: `self.location.startswith(section_path)` operands swapped
   M13 MutableSection.set returns early when overwriting an option of the loaded file
+  M14 breezy's _get_triple_quote override switched off (`if False:`)
+  M15 IniFileStore.unquote strips double quotes only
+  M16 IniFileStore.quote runs _quote with list_values off
+  M18 _load_from_string parses with list_values=True
   H1  harmless: `matched` computed with all(...) instead of the loop — clean.
-  FIX the proposed patch for ignore_parents (yield, then break): that family disappears,
-      0 mismatches; breezy.tests.test_config (717 tests) passes with it.
+  H2  harmless: quote() via a local variable and an explicit multiline=True — clean
+      (apart from the new family above).
+  FIX the patch for roundtrip-unicode-blank-at-end: that family disappears, variant 'sfix'
+      is selected, 0 mismatches; breezy.tests.test_config (717 tests) same with/without.
 """
 import fnmatch
 import os
@@ -69,28 +104,37 @@ from vlib import env
 THEOREMS = [
     "section_match_iff", "extra_is_unmatched_suffix", "iter_by_parts_spec",
     "most_specific_first", "sorted_is_permutation", "value_from_first_defining",
-    "none_iff_no_section_defines",
-    "ignore_parents_stops", "ignore_parents_gap", "ignore_parents_partial",
-    "ignore_parents_own_section_witness",
+    "none_iff_no_section_defines", "matching_sections_mem", "most_specific_wins", "location_none_iff",
+    "ignore_parents_cut", "ignore_parents_none", "ignore_parents_gap", "ignore_parents_own_section_example",
+    "secGet_fuel", "secGet_mono", "secGet'_spec",
     "no_policy_plain_value", "appendpath_value", "relpath_basename_expansion",
-    "starting_sections_spec", "store_roundtrip", "store_set_other_unchanged",
-    "unquote_quoted",
+    "starting_sections_spec",
+    "quote_unquote_partial", "store_roundtrip_partial",
+    "roundtrip_line_break_witness", "roundtrip_both_quote_kinds_witness", "roundtrip_unicode_blank_witness",
+    "store_set_other_unchanged", "unquote_quoted",
 ]
 RULE = ("location stream: one case = (store text, location, option name, matcher); non-trivial = at least one "
-        "named section matches the location; round-trip stream: one case = (value, section, other options); "
-        "non-trivial = the value needs quoting (blank at an end, quote, comma, '#', '=', line break) or is non-ASCII")
+        "named section matches the location; round-trip stream: one case = (value, section, other options, second "
+        "value); non-trivial = the value needs quoting (blank at an end, quote, comma, '#', '=', line break) or is "
+        "non-ASCII; quoting-layer streams: one case = (value, list_values) / (ini text) / (value text, following "
+        "lines); non-trivial = needs quoting / loads with at least one option / non-empty")
 ASSUMPTIONS = [
     "locations have no segment parameters (','), no empty inner components and no file:// scheme",
     "option names are not registered options (Stack.get then applies only unquote)",
-    "values in the location stream reference only {relpath}, {basename}, {branchname}; other references are "
-    "oracle-only (stack-level expansion is not modelled)",
+    "values in the location stream reference only {relpath}, {basename}, {branchname}; a value FOUND that still "
+    "holds another reference is oracle-skipped (stack-level expansion is not modelled)",
     "round-trip values contain no '{' (option references are a documented feature of Stack.get)",
+    "round trip: keys and section names are plain (letters, digits, '_', '.', '-', '/'); one section per file; "
+    "values are Python str without lone surrogates",
 ]
 TRUSTED = [
-    "configobj (parser, writer, _quote/_unquote), Python fnmatch, dromedary urlutils.join/basename are external: "
-    "the model takes the parsed sections from the real parser and specifies fnmatch/join/basename on a restricted "
+    "Python fnmatch, dromedary urlutils.join/basename are external: the model specifies them on a restricted "
     "grammar; the harness compares those specifications with the real functions on every generated case",
-    "the store round trip is an oracle on the real code; the Lean statement is over an abstract quote/unquote pair",
+    "configobj's _quote / parser / writer and breezy's override are MODELLED (Lean: cquote, tripleQuote, "
+    "splitLines, classifyLine, parseOptValue, parseLines, writeSection) and tied to the real code by T2 on every "
+    "run; Python's re engine (lazy quantifier = first match) and str.splitlines / str.isspace are specified by "
+    "those models and compared on generated inputs / all code points",
+    "the location stream takes the parsed sections from the real parser",
 ]
 
 NAMES = ["foo", "bar", "baz"]
@@ -285,6 +329,18 @@ def cut_variant():
         ids = [s.id for _, s in config.LocationMatcher(store, "/p").get_sections()]
         _CUT[0] = "incl" if ids == ["/p"] else "excl"
     return _CUT[0]
+
+
+_SQ = [None]
+
+
+def quote_variant():
+    """which IniFileStore.quote the live code implements, probed once: 's' = configobj's
+    _quote with list_values on (the code as found), 'sfix' = with the fix proposed for finding
+    roundtrip-unicode-blank-at-end (a value with a blank at an end is always quoted)"""
+    if _SQ[0] is None:
+        _SQ[0] = "sfix" if load_store("").quote("\xa0a") != "\xa0a" else "s"
+    return _SQ[0]
 
 
 def load_store(text):
@@ -498,6 +554,8 @@ def run_locations(ctx, n_stores, bad_ratio=0.06):
                 got = real_sections(store, op, loc)
                 if op == "ss":
                     oracle_starting(ctx, case, secs, loc, got)
+                else:
+                    oracle_matching(ctx, case, secs, loc, got)
                 ctx.case(case, nontrivial=anymatch)
                 ctx.count("op:" + op)
                 cases.append(case)
@@ -513,6 +571,8 @@ def run_locations(ctx, n_stores, bad_ratio=0.06):
                     ctx.count("result:" + ("none" if got == "N" else "error" if got.startswith("E:") else "some"))
                     if op == "lm":
                         oracle_location(ctx, case, secs, loc, name, got, nonlocal_ref)
+                    else:
+                        oracle_starting_value(ctx, case, secs, loc, name, got)
                     ctx.case(case, nontrivial=anymatch)
                     cases.append(case)
                     lines.append(_vline(op, loc, name, esecs))
@@ -551,13 +611,23 @@ def _pp_list(s):
     return "[" + ", ".join(out) + "]"
 
 
+import re as _re
+_REF = _re.compile(r"{[^\d\W](?:\.\w|-\w|\w)*}")
+
+
 def oracle_location(ctx, case, secs, loc, name, got, nonlocal_ref):
-    if nonlocal_ref:
-        return
     try:
         documented, dropped, from_ignoring = o_location_expected(secs, loc, name)
     except Exception:
         return        # section id outside fnmatch's domain etc.
+    if documented is not None and _REF.search(documented):
+        # the value FOUND still holds an option reference: Stack.get expands it against the
+        # whole stack (not modelled, not part of the property).  References elsewhere in
+        # the store do not matter: sections only expand their own locals.
+        ctx.count("oracle:lm-skipped-stack-level-reference")
+        return
+    if nonlocal_ref:
+        ctx.count("oracle:lm-checked-despite-reference-elsewhere")
     want = show(None if documented is None else o_unquote(documented))
     if got == want:
         return
@@ -588,6 +658,62 @@ def oracle_starting(ctx, case, secs, loc, got):
         _violation(ctx, case, "StartingPathMatcher(%r) yields %s, documented order %s" % (loc, _pp_list(got), _pp_list(want)))
 
 
+def oracle_matching(ctx, case, secs, loc, got):
+    """LocationMatcher: the candidates (no-name section, sections whose components
+    glob-match a prefix of the location's), most specific first (more components, then
+    larger id), cut after the first one whose ignore_parents is true"""
+    from breezy import urlutils
+    lp = o_parts(loc)
+    try:
+        cands = []
+        for sid, opts in secs:
+            if sid is None:
+                cands.append((0, "", None, opts, loc, ""))
+            elif o_matches(sid, loc):
+                n = len(o_parts(sid))
+                cands.append((n, sid, sid, opts, "/".join(lp[n:]), urlutils.basename(loc)))
+    except Exception:
+        return
+    cands.sort(key=lambda c: (c[0], c[1]), reverse=True)
+    want = []
+    for _, _, sid, opts, extra, branch in cands:
+        want.append(("~" if sid is None else enc(sid)) + ">" + enc(extra))
+        if o_truth(o_section_value(opts, "ignore_parents", extra, branch)):
+            break
+    want = ",".join(want) or "-"
+    if got != want:
+        fam = None
+        if cut_variant() == "excl" and want.startswith(got) and want[len(got):].count(",") <= 1:
+            fam = "ignore-parents-own-section-dropped"
+        _violation(ctx, case, "LocationMatcher(%r) yields %s, documented order %s" % (loc, _pp_list(got), _pp_list(want)),
+                   family=fam)
+
+
+def oracle_starting_value(ctx, case, secs, loc, name, got):
+    """Stack.get through a StartingPathMatcher: the first section, in the matcher's
+    order, that defines the option; the branch name is empty there"""
+    lp = o_parts(loc)
+    try:
+        order = [(opts, "/".join(lp[len(o_parts(sid)):])) for sid, opts in reversed(secs)
+                 if sid is not None and (loc.startswith(sid) or fnmatch.fnmatchcase(loc, sid))]
+    except Exception:
+        return
+    if secs and secs[0][0] is None:
+        order.append((secs[0][1], loc))
+    want = None
+    for opts, extra in order:
+        want = o_section_value(opts, name, extra, "")
+        if want is not None:
+            break
+    if want is not None and _REF.search(want):
+        ctx.count("oracle:sp-skipped-stack-level-reference")
+        return
+    want = show(None if want is None else o_unquote(want))
+    if got != want:
+        _violation(ctx, case, "StartingPathMatcher location %r option %r: got %s, documented semantics give %s" % (
+            loc, name, _pp(got), _pp(want)))
+
+
 def _pp(s):
     return "None" if s == "N" else (repr(dec(s[2:])) if s.startswith("S ") else s)
 
@@ -599,25 +725,50 @@ VAL_ALPHA = ["a", "b", "z", "0", " ", " ", '"', "'", ",", "#", "=", "\n", "é", 
 
 
 VAL_ALPHA_1LINE = [c for c in VAL_ALPHA if c not in "\n\r"]
+# blanks for str.isspace() / re's \s that are neither line boundaries nor in configobj's wspace_plus
+UNI_BLANKS = ["\x1f", "\xa0", "\u1680", "\u2000", "\u2003", "\u200a", "\u202f", "\u205f", "\u3000"]
+VAL_ALPHA_BLANKS = VAL_ALPHA_1LINE + UNI_BLANKS[:4] + ["\x0c", "\x1c", "\x85", "\u2028", "\u200b", "\u00ad"]
 
 
 def g_rt_value(rng):
     r = rng.random()
     if r < 0.08:
         return rng.choice(["", " ", "a", "#", '"', "'", "''", '""', ",", "a,b", " a", "a ", "=", "[x]", "a#b", "é"])
+    if r < 0.14:
+        # the boundaries the quoting layer looks at: triple quotes, quote + '#', blanks at the ends
+        core = rng.choice(["a", "a b", "x,y", "p#q", ""])
+        pre = rng.choice(["", "", " ", "\t", "'", '"', "'''", '"""', "#", rng.choice(UNI_BLANKS)])
+        post = rng.choice(["", "", " ", "\t", "'", '"', "'''", '"""', "''' #c", '""" #c', "#", rng.choice(UNI_BLANKS)])
+        return pre + core + post
     n = rng.randint(1, 12)
-    alpha = VAL_ALPHA if rng.random() < 0.2 else VAL_ALPHA_1LINE
+    r = rng.random()
+    alpha = VAL_ALPHA if r < 0.2 else VAL_ALPHA_BLANKS if r < 0.3 else VAL_ALPHA_1LINE
     return "".join(rng.choice(alpha) for _ in range(n))
 
 
+WSPACE_PLUS = " \r\n\x0b\t'\""          # configobj.wspace_plus
+FAMILY_PRIORITY = ["roundtrip-line-break", "roundtrip-both-quote-kinds", "roundtrip-unicode-blank-at-end"]
+
+
 def rt_family(v):
-    """classifier of the known round-trip failures (exact on the explored grammar)"""
+    """classifier of the round-trip failure families, by the input value (exact on the
+    explored grammar).  judge_roundtrip() accepts a family only when, in addition, the
+    damage observed is exactly the one the Lean model of the quoting layer derives."""
     if any(c in LINEBREAKS for c in v):
         return "roundtrip-line-break"
     if "'" in v and '"' in v:
         # damaged at the first read-back when it also has '#' or starts and ends with the
         # same quote character, otherwise when the loaded file is saved again
         return "roundtrip-both-quote-kinds"
+    if (quote_variant() == "s"
+            and v and (v[0].isspace() or v[-1].isspace()) and v[0] not in WSPACE_PLUS and v[-1] not in WSPACE_PLUS
+            and "," not in v and "#" not in v):
+        # only while the live IniFileStore.quote is the unfixed one (probe 's'): with the fix
+        # (6ddbb70, probe 'sfix') this family is never assigned, a return of the defect is a
+        # plain VIOLATION
+        # written without quotes (configobj only quotes for ITS blanks: space, tab, CR, LF, VT),
+        # and the parser's \s* strips every Unicode blank
+        return "roundtrip-unicode-blank-at-end"
     return None
 
 
@@ -625,8 +776,17 @@ def needs_quoting(v):
     return (v != v.strip() or any(c in v for c in "\"',#=\n\r") or not v.isascii() or v == "")
 
 
+def _stack_for(config, store, section):
+    if section is None:
+        return config.Stack([store.get_sections], store)
+    return config.Stack([config.NameMatcher(store, section).get_sections], store)
+
+
 def roundtrip_case(args):
-    """set -> save -> fresh store -> get, on a real TransportIniFileStore"""
+    """set -> save -> fresh store -> get, on a real TransportIniFileStore; then set
+    value2 on the LOADED store -> save -> fresh store -> get.
+    -> dict(g1=..., g2=...): a generation is "SE" (Stack.set / save raised), "LE" (the
+    saved file does not load) or the list of values read back for `keys`"""
     d, section, others, name, value, value2 = args
     from breezy import config, transport
     if d is None:
@@ -638,6 +798,8 @@ def roundtrip_case(args):
         t.delete("rt.conf")
     except Exception:
         pass
+    keys = [k for k, _ in others] + [name]
+    res = dict(keys=keys, g1="SE", g2=None, file1=None)
     store = config.TransportIniFileStore(t, "rt.conf")
     st = config.Stack([store.get_sections], store, mutable_section_id=section)
     try:
@@ -647,37 +809,78 @@ def roundtrip_case(args):
         st.set(name, value)
         store.save()
     except Exception as e:
-        return dict(set_error=type(e).__name__)
-    res = {}
+        res["error"] = type(e).__name__
+        return res
+    try:
+        res["file1"] = t.get_bytes("rt.conf").decode("utf-8")
+    except Exception:
+        pass
     store2 = config.TransportIniFileStore(t, "rt.conf")
-    if section is None:
-        st2 = config.Stack([store2.get_sections], store2)
-    else:
-        st2 = config.Stack([config.NameMatcher(store2, section).get_sections], store2)
-    for k, _ in list(others) + [(name, value)]:
-        try:
-            res[k] = st2.get(k)
-        except Exception as e:
-            res[k] = "E:" + type(e).__name__
+    try:
+        st2 = _stack_for(config, store2, section)
+        res["g1"] = [st2.get(k) for k in keys]
+    except Exception as e:
+        res["g1"] = "LE"
+        res["error"] = type(e).__name__
+        return res
     # second generation: overwrite on the loaded store, save, load again
+    res["g2"] = "SE"
     try:
         st3 = config.Stack([store2.get_sections], store2, mutable_section_id=section)
         st3.set(name, value2)
         store2.save()
-        store4 = config.TransportIniFileStore(t, "rt.conf")
-        st4 = (config.Stack([store4.get_sections], store4) if section is None
-               else config.Stack([config.NameMatcher(store4, section).get_sections], store4))
-        res["#again"] = st4.get(name)
-        res["#others_again"] = [st4.get(k) for k, _ in others]
     except Exception as e:
-        res["#again"] = "E:" + type(e).__name__
-        res["#others_again"] = None
+        res["error"] = type(e).__name__
+        return res
+    store4 = config.TransportIniFileStore(t, "rt.conf")
+    try:
+        st4 = _stack_for(config, store4, section)
+        res["g2"] = [st4.get(k) for k in keys]
+    except Exception as e:
+        res["g2"] = "LE"
+        res["error"] = type(e).__name__
     return res
+
+
+def _canon_gen(g):
+    if g is None:
+        return "-"
+    if isinstance(g, str):
+        return g
+    return ",".join((show(v) if v is None or isinstance(v, str) else "not-a-string:%r" % (v,)) for v in g) or "-"
+
+
+def rt_line(section, others, name, value, value2):
+    opts = list(others) + [(name, value)]
+    return "rt %s %s %s %s %s" % (quote_variant(), "~" if section is None else enc(section), enc(name), enc(value2),
+                               ",".join("%s=%s" % (enc(k), enc(v)) for k, v in opts))
+
+
+def _first_failure(keys, expected, got, what):
+    """-> (key or None for the whole generation, text) of the first difference"""
+    if got == "SE":
+        return None, "%s: Stack.set / save raised" % what
+    if got == "LE":
+        return None, "%s: the saved file does not load" % what
+    for k, e, g in zip(keys, expected, got):
+        if e != g:
+            return k, "%s: option %s=%r read back as %r" % (what, k, e, g)
+    return False, None
+
+
+def _rt_rerun_without_families(section, others, name, value, value2):
+    """the same round trip with every option whose value is in a failure family left
+    out: does it still fail?  (attribution of collateral damage)"""
+    keep = [(k, v) for k, v in others if rt_family(v) is None]
+    v1 = value if rt_family(value) is None else "plain"
+    res = roundtrip_case((None, section, keep, name, v1, value2))
+    return res["g1"] != [v for _, v in keep] + [v1] or res["g2"] != [v for _, v in keep] + [value2]
 
 
 def run_roundtrip(ctx, n):
     rng = ctx.rng
     d = env.fresh_dir("rt")
+    todo, lines = [], []
     for _ in range(n):
         value = g_rt_value(rng)
         section = rng.choice([None, None, "sec", "/a/b", "DEFAULT"])
@@ -695,30 +898,275 @@ def run_roundtrip(ctx, n):
             value2 = g_rt_value(rng)
         case["value2"] = value2
         res = roundtrip_case((d if rng.random() < 0.1 else None, section, others, name, value, value2))
-        fam = next((f for f in [rt_family(value)] + [rt_family(v) for _, v in others] if f), None)
         ctx.case(case, nontrivial=needs_quoting(value))
         ctx.count("op:rt")
         ctx.count("rt:len%d" % min(len(value), 12))
-        if "set_error" in res:
-            ctx.count("rt:set-error")
-            _violation(ctx, case, "Stack.set(%r) / save raised %s" % (value, res["set_error"]), family=fam)
+        todo.append((case, res))
+        lines.append(rt_line(section, others, name, value, value2))
+    replies = ctx.model(lines)
+    for (case, res), line, m in zip(todo, lines, replies):
+        judge_roundtrip(ctx, case, res, line, m)
+
+
+def judge_roundtrip(ctx, case, res, line, m):
+    """T2: the two-generation outcome against the Lean model of quote / write / parse /
+    unquote; oracle: every option reads back as it was set, in both generations"""
+    section, others, value, value2 = case["section"], [tuple(x) for x in case["others"]], case["value"], case["value2"]
+    name = "opt"
+    rg1, rg2 = _canon_gen(res["g1"]), _canon_gen(res["g2"])
+    real = rg1 + ";" + rg2
+    mg1, _, mg2 = m.partition(";")
+    ctx.traces += 1
+    if "O" in (mg1, mg2):
+        ctx.count("rt:model-outside")       # the damaged file left the modelled fragment
+    agrees1 = mg1 != "O" and rg1 == mg1
+    agrees2 = agrees1 and mg2 != "O" and rg2 == mg2
+    if (mg1 != "O" and rg1 != mg1) or (agrees1 and mg2 != "O" and rg2 != mg2):
+        ctx.mismatch(case, real, m, line=line)
+    # ---- oracle
+    keys = res["keys"]
+    inputs = dict(others)
+    inputs[name] = value
+    exp1 = [inputs[k] for k in keys]
+    exp2 = [value2 if k == name else inputs[k] for k in keys]
+    agrees = agrees1
+    key, what = _first_failure(keys, exp1, res["g1"], "first read-back")
+    if key is False and res["g2"] is not None:
+        agrees = agrees2
+        key, what = _first_failure(keys, exp2, res["g2"], "after setting %r on the loaded store and saving again" % value2)
+    if key is False:
+        ctx.count("rt:ok")
+        return
+    ctx.count("rt:differs")
+    fams = {k: rt_family(v) for k, v in inputs.items()}
+    if key is not None and fams[key]:
+        fam = fams[key]                        # the option's own value is in a family …
+    else:
+        # … otherwise the damage must come from ANOTHER option of the file that is
+        # (whole-file errors, swallowed lines, inherited inline comments)
+        # … the most destructive family present first: a line boundary breaks the file for all
+        present = [f for k, f in fams.items() if f and k != key]
+        fam = next((f for f in FAMILY_PRIORITY if f in present), None)
+        if fam and _rt_rerun_without_families(section, others, name, value, value2):
+            fam = None
+    unchecked = mg1 == "O" or (agrees1 and mg2 == "O" and agrees is agrees2 and res["g2"] is not None and key is not False
+                               and _first_failure(keys, exp1, res["g1"], "")[0] is False)
+    if fam and unchecked:
+        ctx.count("rt:family-by-input-only")       # the damaged file is outside the model: no shape check possible
+    elif fam and not agrees:
+        what += " [an input of family %s is present, but the outcome %s is not the damage the model derives for it: %s]" % (
+            fam, real, m)
+        fam = None
+    _violation(ctx, case, "value %r, other options %r, section %r: %s" % (value, others, section, what), family=fam)
+
+
+# ----------------------------------------------------------------------
+# the pieces of the quoting layer, one by one (T2 for the Lean model of configobj)
+def real_cquote(cobj, list_values, v):
+    import configobj
+    try:
+        cobj.list_values = list_values
+        return "S " + enc(cobj._quote(v))
+    except configobj.ConfigObjError:
+        return "E"
+    finally:
+        cobj.list_values = False
+
+
+def run_quote(ctx, n):
+    """IniFileStore.quote (= _quote with list_values on, what Stack.set stores) and
+    ConfigObj._quote with list_values off (what ConfigObj.write applies to the stored
+    string) against the model's cquote — on raw values and on already quoted ones"""
+    rng = ctx.rng
+    store = load_store("")
+    cobj = store._config_obj
+    cases, lines, outs = [], [], []
+    for _ in range(n):
+        v = g_rt_value(rng)
+        try:
+            q1 = store.quote(v)
+            got1 = "S " + enc(q1)
+        except Exception as e:
+            q1 = None
+            got1 = "E" if type(e).__name__ == "ConfigObjError" else exc_name(e)
+        todo = [("cqs", "cq %s %s" % (quote_variant(), enc(v)), v, got1),
+                ("cq1", "cq 1 " + enc(v), v, real_cquote(cobj, True, v))]
+        for x in [v] + ([q1] if q1 is not None else []):
+            todo.append(("cq0", "cq 0 " + enc(x), x, real_cquote(cobj, False, x)))
+        if q1 is not None and rng.random() < 0.3:
+            todo.append(("cq1", "cq 1 " + enc(q1), q1, real_cquote(cobj, True, q1)))
+        for op, line, x, got in todo:
+            case = dict(op=op, value=x)
+            ctx.case(case, nontrivial=needs_quoting(x))
+            ctx.count("op:" + op)
+            ctx.count("quote:" + ("error" if got == "E" else "plain" if got == "S " + enc(x) else
+                                  "triple" if dec(got[2:])[:3] in ("'''", '"""') else "single"))
+            cases.append(case)
+            lines.append(line)
+            outs.append(got)
+    ctx.diff(cases, lines, outs)
+
+
+def run_tables(ctx):
+    """the model's blank table against str.isspace / re's \\s and its line-boundary table
+    against str.splitlines, on every code point"""
+    import re
+    ws = re.compile(r"\s")
+    sp, lb = [], []
+    for n in range(0x110000):
+        if 0xd800 <= n <= 0xdfff:
             continue
-        if res[name] != value:
-            ctx.count("rt:differs")
-            _violation(ctx, case, "value %r read back as %r" % (value, res[name]), family=fam)
-        elif res["#again"] != value2:
-            _violation(ctx, case, "loaded store: option set to %r, saved, read back as %r" % (value2, res["#again"]),
-                          family=fam)
-        for k, v in others:
-            if res[k] != v:
-                # the damaged target value may swallow following lines of the file
-                _violation(ctx, case, "other option %s=%r read back as %r after setting %r" % (k, v, res[k], value),
-                              family=fam)
-                break
+        c = chr(n)
+        if c.isspace() != bool(ws.match(c)) or (c.strip() == "") != c.isspace():
+            ctx.violation(dict(op="wt", cp=n), "str.isspace, str.strip and re \\s disagree on U+%04X" % n)
+        if c.isspace():
+            sp.append(n)
+        if len(("a" + c + "b").splitlines()) == 2:
+            lb.append(n)
+    case = dict(op="wt")
+    ctx.case(case)
+    ctx.diff([case], ["wt"], [(",".join(map(str, sp)) or "-") + ";" + (",".join(map(str, lb)) or "-")])
+
+
+LINE_ALPHA = ["a", "b", "1", " ", " ", "=", "#", '"', "'", ",", "\t", "\xa0", "é", "[", "]", ";", "\\", ".", "-"]
+VALUE_PIECES = ["a", "b c", '"', "'", '"""', "'''", "#", " #c", " ", "  ", "\t", ",", "=", "x", "\xa0", "\u3000",
+                "\x1f", "é", '""', "''", "[", "]", "日"]
+LINE_ENDS = ["\n"] * 12 + ["\r\n", "\r", "\x0b", "\x0c", "\x1c", "\x1e", "\x85", "\u2028", "\u2029", "\n\n", "\r\r\n"]
+
+
+def g_value_text(rng):
+    return "".join(rng.choice(VALUE_PIECES) for _ in range(rng.randint(0, 6)))
+
+
+def g_content(rng):
+    """a small ini file: option lines with hostile value texts, single- and multi-line
+    triple-quoted values, blank and comment lines, plain section markers, junk"""
+    out = []
+    keys = ["opt", "o1", "o2", "a.b", "x-y", "k k", "_u"]
+    for _ in range(rng.randint(1, 5)):
+        r = rng.random()
+        if r < 0.55:
+            k = rng.choice(keys)
+            sep = rng.choice([" = ", " = ", "=", " =", "= ", "  =\t", " = \xa0", " =\u3000"])
+            line = k + sep + g_value_text(rng)
+        elif r < 0.67:
+            q = rng.choice(['"""', "'''"])
+            k = rng.choice(keys)
+            body = [g_value_text(rng) for _ in range(rng.randint(1, 3))]
+            line = k + " = " + q + rng.choice(LINE_ENDS).join(body) + rng.choice([q, q, q + " # c", q + "x", ""])
+        elif r < 0.75:
+            line = rng.choice(["", " ", "# c", "  # c", "\xa0", "#"])
+        elif r < 0.87:
+            line = rng.choice(["[sec]", "[/a/b]", "[DEFAULT]", "[opt]", "[sec]", "[s] ", "[[n]]", "[a b]", '["q"]', "[x] # c", "[]"])
         else:
-            if res.get("#others_again") not in (None, [v for _, v in others]):
-                _violation(ctx, case, "other options changed after the second save: %r" % (res["#others_again"],),
-                              family=fam)
+            line = "".join(rng.choice(LINE_ALPHA) for _ in range(rng.randint(1, 8)))
+        out.append(line + rng.choice(LINE_ENDS))
+    text = "".join(out)
+    if rng.random() < 0.1:
+        text = text.rstrip("\n")
+    return text
+
+
+def real_load(text):
+    from breezy import config
+    try:
+        store = load_store(text)
+    except config.ParseConfigError:
+        return "E"
+    except Exception as e:
+        return exc_name(e)
+    cobj = store._config_obj
+    out = []
+    for sec in [cobj] + [cobj[n] for n in cobj.sections]:
+        for k in sec.scalars:
+            if not isinstance(sec[k], str):
+                return "not-a-string:%r" % (sec[k],)
+    for k in cobj.scalars:
+        out.append("~>%s>%s>%s" % (enc(k), enc(cobj[k]), enc(cobj.inline_comments.get(k) or "")))
+    for name in cobj.sections:
+        sec = cobj[name]
+        if sec.sections:
+            return "nested"
+        for k in sec.scalars:
+            out.append("%s>%s>%s>%s" % (enc(name), enc(k), enc(sec[k]), enc(sec.inline_comments.get(k) or "")))
+    return ",".join(out) or "-"
+
+
+def run_load(ctx, n):
+    """the reader: str.splitlines + rstrip, blank/comment lines, plain section markers,
+    the _keyword split, _nolistvalue, single- and multi-line triple-quoted values, inline
+    comments, duplicate detection — real IniFileStore._load_from_string against the model"""
+    rng = ctx.rng
+    cases, lines, outs = [], [], []
+    for _ in range(n):
+        text = g_content(rng)
+        case = dict(op="ld", text=text)
+        got = real_load(text)
+        ctx.case(case, nontrivial=got not in ("E", "-"))
+        ctx.count("op:ld")
+        ctx.count("load:" + ("error" if got == "E" else "empty" if got == "-" else "other" if got[:2] == "E:" else "options"))
+        cases.append(case)
+        lines.append("ld " + enc(text))
+        outs.append(got)
+        # the line splitting on its own
+        case = dict(op="sl", text=text)
+        cases.append(case)
+        lines.append("sl " + enc(text))
+        outs.append(",".join(enc(l.rstrip("\r\n")) for l in text.splitlines(True)) or "-")
+    replies = ctx.model(lines)
+    for c, l, i, m in zip(cases, lines, outs, replies):
+        ctx.traces += 1
+        if m == "O" and c["op"] == "ld":
+            ctx.count("load:model-outside")
+            continue
+        if i != m:
+            ctx.mismatch(c, i, m, line=l)
+
+
+def real_parse_value(cobj, x, rest):
+    """what _parse does with the value part of a keyword line"""
+    infile = ["k = " + x] + list(rest)
+    try:
+        if x[:3] in ('"""', "'''"):
+            value, comment, idx = cobj._multiline(x, infile, 0, len(infile) - 1)
+        else:
+            value, comment = cobj._handle_value(x)
+            idx = 0
+    except SyntaxError:
+        return "E"
+    if not isinstance(value, str):
+        return "not-a-string:%r" % (value,)
+    return "%s>%d>%s" % (enc(value), idx, enc(comment or ""))
+
+
+def run_parse_value(ctx, n):
+    """ConfigObj._handle_value / _multiline called directly, also on texts a file line
+    cannot start with (leading blanks), against parseOptValue"""
+    rng = ctx.rng
+    cobj = load_store("")._config_obj
+    cases, lines, outs = [], [], []
+    for _ in range(n):
+        r = rng.random()
+        if r < 0.5:
+            x = g_value_text(rng)
+        elif r < 0.8:
+            try:
+                x = cobj._quote(load_store("").quote(g_rt_value(rng)))      # what a save really writes
+            except Exception:
+                x = g_value_text(rng)
+            x = x.split("\n")[0]
+        else:
+            x = rng.choice(['"""', "'''"]) + g_value_text(rng)
+        rest = [g_value_text(rng) + rng.choice(["", '"""', "'''", "''' # c"]) for _ in range(rng.randint(0, 3))]
+        if "\n" in x + "".join(rest):
+            continue            # a line never contains LF
+        case = dict(op="pv", x=x, rest=rest)
+        ctx.case(case, nontrivial=bool(x))
+        ctx.count("op:pv")
+        cases.append(case)
+        lines.append("pv %s %s" % (enc(x), ",".join(enc(l) for l in rest) or "-"))
+        outs.append(real_parse_value(cobj, x, rest))
+    ctx.diff(cases, lines, outs)
 
 
 def run_location_stack(ctx, n):
@@ -804,10 +1252,22 @@ def run(ctx):
     if os.path.isdir(cdir):
         for fn in sorted(os.listdir(cdir)):
             if fn.endswith(".json"):
-                _replay_one(ctx, json.load(open(os.path.join(cdir, fn))))
+                case = json.load(open(os.path.join(cdir, fn)))
+                r = _replay_one(ctx, case)
+                ctx.case(case)
+                ctx.count("op:corpus")
+                if case["op"] != "rt":          # rt is judged (T2 + oracle) inside _replay_one
+                    ctx.traces += 1
+                    if r["model"] != "O" and r["impl"] != r["model"]:
+                        ctx.mismatch(case, r["impl"], r["model"])
     ctx.extra["ignore_parents_cut_variant"] = cut_variant()
+    ctx.extra["store_quote_variant"] = quote_variant()
+    run_tables(ctx)
     run_helpers(ctx, ctx.pick(500, 5000))
     run_unquote(ctx, ctx.pick(2000, 20000))
+    run_quote(ctx, ctx.pick(3000, 40000))
+    run_parse_value(ctx, ctx.pick(4000, 50000))
+    run_load(ctx, ctx.pick(4000, 50000))
     run_locations(ctx, ctx.pick(1500, 20000))
     run_roundtrip(ctx, ctx.pick(6000, 80000))
     run_location_stack(ctx, ctx.pick(60, 600))
@@ -817,12 +1277,36 @@ def _replay_one(ctx, case):
     op = case["op"]
     if op == "rt":
         d = env.fresh_dir("rt")
-        res = roundtrip_case((d, case["section"], [tuple(x) for x in case["others"]], "opt", case["value"],
-                              case.get("value2", "second")))
-        if res.get("opt") != case["value"]:
-            _violation(ctx, case, "value %r read back as %r" % (case["value"], res.get("opt", res)),
-                          family=rt_family(case["value"]))
-        return dict(impl=res, model="identity (store_roundtrip, abstract quote/unquote)")
+        others = [tuple(x) for x in case["others"]]
+        value2 = case.get("value2", "second")
+        case = dict(case, value2=value2)
+        res = roundtrip_case((d, case["section"], others, "opt", case["value"], value2))
+        line = rt_line(case["section"], others, "opt", case["value"], value2)
+        m = ctx.model([line])[0]
+        judge_roundtrip(ctx, case, res, line, m)
+        return dict(impl=_canon_gen(res["g1"]) + ";" + _canon_gen(res["g2"]), model=m, file_after_first_save=res.get("file1"),
+                    read_back=res["g1"], read_back_second_generation=res["g2"])
+    if op in ("cq0", "cq1"):
+        cobj = load_store("")._config_obj
+        lv = op == "cq1"
+        return dict(impl=real_cquote(cobj, lv, case["value"]), model=ctx.model(["cq %d %s" % (lv, enc(case["value"]))])[0])
+    if op == "cqs":
+        try:
+            impl = "S " + enc(load_store("").quote(case["value"]))
+        except Exception as e:
+            impl = "E" if type(e).__name__ == "ConfigObjError" else exc_name(e)
+        return dict(impl=impl, model=ctx.model(["cq %s %s" % (quote_variant(), enc(case["value"]))])[0])
+    if op == "ld":
+        return dict(impl=real_load(case["text"]), model=ctx.model(["ld " + enc(case["text"])])[0])
+    if op == "sl":
+        return dict(impl=",".join(enc(l.rstrip("\r\n")) for l in case["text"].splitlines(True)) or "-",
+                    model=ctx.model(["sl " + enc(case["text"])])[0])
+    if op == "pv":
+        cobj = load_store("")._config_obj
+        return dict(impl=real_parse_value(cobj, case["x"], case["rest"]),
+                    model=ctx.model(["pv %s %s" % (enc(case["x"]), ",".join(enc(l) for l in case["rest"]) or "-")])[0])
+    if op == "wt":
+        return dict(impl="tables", model="tables")
     if op == "uq":
         from breezy import config
         store = config.IniFileStore()
@@ -863,11 +1347,15 @@ def _replay_one(ctx, case):
         got = real_sections(store, op, case["loc"])
         if op == "ss":
             oracle_starting(ctx, case, secs, case["loc"], got)
+        else:
+            oracle_matching(ctx, case, secs, case["loc"], got)
         line = ("ms %s %s %s" % (cut_variant(), enc(case["loc"]), esecs)) if op == "ms" else "ss %s %s" % (enc(case["loc"]), esecs)
         return dict(impl=_pp_list(got), model=_pp_list(ctx.model([line])[0]))
     got = real_get(store, op, case["loc"], case["name"])
     if op == "lm":
         oracle_location(ctx, case, secs, case["loc"], case["name"], got, has_nonlocal_ref(secs))
+    else:
+        oracle_starting_value(ctx, case, secs, case["loc"], case["name"], got)
     model = ctx.model([_vline(op, case["loc"], case["name"], esecs)])[0]
     return dict(impl=_pp(got), model=_pp(model), sections=secs)
 
